@@ -657,7 +657,7 @@ def callbacks_oracle(obs, x, expect_no_start=False):
                          f'to rest with the caller still inside result() (on_done must run only once result() no longer blocks)', **mech,
                          sym='result-blocks-during-on_done'))
             break
-    for s in x.subs:
+    for s in subs_of(x):
         q = [e for e in evs if e['kind'] == 'cb.on_queued' and e['sub'] == s.name]
         dn = [e for e in evs if e['kind'] == 'cb.on_done' and e['sub'] == s.name]
         cancelled_early = bool(cancel_ns) and (not q or min(cancel_ns) < q[0]['n'])
@@ -721,6 +721,12 @@ def callbacks_oracle(obs, x, expect_no_start=False):
     return out
 
 
+def subs_of(x):
+    """The transfer's subscribers as recorders of what was delivered FOR THIS TRANSFER (a subscriber object shared by several
+    transfers keeps one recorder per transfer, attributed by the future each callback was given)."""
+    return [s.view(x.label) if hasattr(s, 'view') else s for s in (x.subs or ())]
+
+
 # ------------------------------------------------------------------------ C09
 def progress_oracle(obs, x):
     out = []
@@ -728,7 +734,7 @@ def progress_oracle(obs, x):
     size = x.spec.get('size', 0)
     if x.kind == 'delete':
         return out
-    for s in x.subs:
+    for s in subs_of(x):
         if not hasattr(s, 'on_progress'):
             continue
         if x.outcome == 'success':
